@@ -129,7 +129,9 @@ Pick(q) ==
         \* side effects of handlers that run no hook process happen while the task is handled (before the result
         \* is applied to the queue): schedules are enabled, a Synchronization that must not run unlocks its monitors
         /\ schedOn' = IF t.type = "EnableSched" THEN schedOn \cup {t.hook} ELSE schedOn
-        /\ mstate' = [p \in Pairs |-> IF skipSync /\ p \in mon THEN "unlocked" ELSE mstate[p]]
+        \* ... and EnableKubernetesBindings creates and starts the monitors of its hook (Events are held back from now on)
+        /\ mstate' = [p \in Pairs |-> IF skipSync /\ p \in mon THEN "unlocked"
+                                      ELSE IF t.type = "EnableKube" /\ p[1] = t.hook THEN "started" ELSE mstate[p]]
         /\ buffered' = [p \in Pairs |-> IF p \in snapPairs \/ (skipSync /\ p \in mon) THEN 0 ELSE buffered[p]]
   /\ UNCHANGED <<backoff, nev, ntick, nfail, nobj, down, log, discarded>>
 
@@ -152,8 +154,7 @@ Finish(q, ok) ==
             IN
             /\ (t.type = "HookRun" /\ run[q].exec => log' = Append(log, [q |-> q, hook |-> t.hook, ctxs |-> t.ctxs, ok |-> ok, id |-> t.id, kind |-> t.kind, kept |-> FALSE]))
             /\ (~(t.type = "HookRun" /\ run[q].exec) => UNCHANGED log)
-            /\ mstate' = [p \in Pairs |-> IF t.type = "EnableKube" /\ p[1] = t.hook THEN "started"
-                                          ELSE IF syncOk /\ p \in t.mon THEN "unlocked" ELSE mstate[p]]
+            /\ mstate' = [p \in Pairs |-> IF syncOk /\ p \in t.mon THEN "unlocked" ELSE mstate[p]]
             /\ queues' = AppendAll(queues, replay) /\ nextId' = nextId + Len(replay)
             /\ buffered' = [p \in Pairs |-> IF syncOk /\ p \in t.mon THEN 0 ELSE buffered[p]]
             /\ UNCHANGED <<schedOn, backoff, nfail, discarded>>
@@ -161,8 +162,7 @@ Finish(q, ok) ==
      CASE t.type = "EnableKube" ->
             /\ queues' = [queues EXCEPT ![q] = SyncTasks(h, nextId) \o rest]
             /\ nextId' = nextId + Len(h.kube)
-            /\ mstate' = [p \in Pairs |-> IF p[1] = t.hook THEN "started" ELSE mstate[p]]
-            /\ UNCHANGED <<schedOn, backoff, nfail, buffered, log, discarded>>
+            /\ UNCHANGED <<schedOn, backoff, nfail, mstate, buffered, log, discarded>>
        [] t.type = "EnableSched" ->
             /\ queues' = [queues EXCEPT ![q] = rest]
             /\ UNCHANGED <<schedOn, mstate, buffered, nextId, backoff, nfail, log, discarded>>
